@@ -258,6 +258,8 @@ let eval (line : string) : string =
   (* BOFF <n> / BRECV: the harness re-makes the same body at another buf_offset / through the receive path; the model's
      body has no offset (bbuf is what get_buf() returns), so nothing changes *)
   | "BOFF" | "BRECV" -> "ok " ^ body_state ()
+  (* BBEYOND: from_parts with an offset at or beyond the end of the buffer: same signature and descriptors, no bytes *)
+  | "BBEYOND" -> cur_body := { !cur_body with bbuf = [] }; "ok " ^ body_state ()
   (* ---- END C15 block ---- *)
   | _ -> "?"
 
